@@ -217,16 +217,9 @@ def check(rep, tier, seed):
     cases += [native_case(seed, i, ["badger", "memkv"][i % 2]) for i in range(4 if tier == "quick" else 96)]
     cases += [renew_case(seed, i, ["update", "recreate"][i % 2]) for i in range(2 if tier == "quick" else 24)]
     core.run_cases(cases, workers=14)
-    for c in cases:
-        rep.count_case(c)
-        hit = concurrent_oracle(c) if c.meta.get("concurrent") else renew_oracle(c) if c.meta.get("renew") else native_oracle(c) if c.meta.get("native") else oracle(c)
-        if hit:
-            if core.handle_oracle_hit(rep, "C17", hit[1], c, hit[0], hit[1]):
-                return
-            continue
-        if c.diff() is not None:
-            core.handle_diff(rep, "C17", "correspondence", c)
-            return
+    pick = lambda c: concurrent_oracle(c) if c.meta.get("concurrent") else renew_oracle(c) if c.meta.get("renew") else native_oracle(c) if c.meta.get("native") else oracle(c)
+    if core.judge(rep, "C17", cases, pick):
+        return
     rep.assumptions += ["events TTL 1 s through the verif setter; model time advances only by the script's sleeps (300 ms = young, 1300 ms = old); "
                         "the oracle allows 600 ms of scheduling slack",
                         "engine without native TTL: tikv mock. On memkv/badger expiry is the engine's own TTL (its clock is assumed); "
